@@ -10,9 +10,11 @@ import (
 	"fmt"
 	"os"
 	"path/filepath"
+	"runtime"
 	"strings"
 	"testing"
 
+	"github.com/celestiaorg/celestia-app/v9/pkg/appconsts"
 	"github.com/celestiaorg/nmt"
 
 	vk "github.com/celestiaorg/celestia-node/internal/verifkit"
@@ -103,6 +105,40 @@ func TestVerifC12_Witnesses(t *testing.T) {
 		abs[0] = &n
 		if ok, ierr, pan := c12Included(svc, blk.Height, bl.NS, &abs, bl.Commitment); pan != nil || (ok && ierr == nil) {
 			fail("C12 included: proof with a foreign leaf hash: (%v,%v) panic=%v", ok, ierr, pan)
+		}
+	}
+	// A subtree-root proof whose stated leaf range cannot exist in any square (rows have at most
+	// 2*SquareSizeUpperBound leaves) must be refused without work proportional to the stated range:
+	// with End = 2^40 the unguarded path builds 2^20 leaf ranges (tens of MB) before failing, with
+	// End = 2^63-1 it needs 2^31 of them (more than 30 GB) and the process dies. Allocation volume is
+	// measured instead of time, so the witness is deterministic and cheap.
+	{
+		bl := blobs[len(blobs)-1]
+		cp, err := svc.GetCommitmentProof(ctx, blk.Height, bl.NS, bl.Commitment)
+		if err != nil {
+			t.Fatalf("VERIF-INFRA: GetCommitmentProof: %v", err)
+		}
+		end := 1 << 40
+		if os.Getenv("C12_PROBE_HUGE") != "" {
+			end = 1<<63 - 1 // manual probe only; run under an address-space limit (prlimit --as=...)
+		}
+		p := c12CloneCP(cp)
+		p.SubtreeRootProofs[0] = c12WithNodes(p.SubtreeRootProofs[0], 0, end, p.SubtreeRootProofs[0].Nodes())
+		var before, after runtime.MemStats
+		runtime.ReadMemStats(&before)
+		verr, vpan := c12VerifyCP(p, blk.DataRoot, bl.Commitment)
+		runtime.ReadMemStats(&after)
+		alloc := after.TotalAlloc - before.TotalAlloc
+		vk.Record("witness commitment absurd-range", []string{"witness=commitment"}, true, nil)
+		vk.Count("witness_absurd_range_alloc_bytes", int64(alloc))
+		switch {
+		case vpan != nil:
+			fail("C12 commitment-proof: Verify panicked (%v) on a subtree-root proof with leaf range [0,2^40)", vpan)
+		case verr == nil:
+			fail("C12 commitment-proof: Verify accepted a subtree-root proof with leaf range [0,2^40)")
+		case alloc > 4<<20:
+			fail("C12 commitment-proof: Verify allocated %d MB before refusing a subtree-root proof whose stated leaf range [0,2^40) cannot exist in any square (a row has at most %d leaves); the work grows with the stated range: End=2^63-1 needs 2^31 leaf ranges (> 30 GB) and the process is killed instead of an error being returned",
+				alloc>>20, 2*appconsts.SquareSizeUpperBound)
 		}
 	}
 	if len(failures) > 0 {
